@@ -252,7 +252,7 @@ pub fn spec_strategy() -> BoxedStrategy<BlockSpec> {
         (0u32..=1000).prop_map(|a| IirF32 { alpha: a as f32 / 1000.0 }),
         (0u32..=1000).prop_map(|a| IirC32 { alpha: a as f32 / 1000.0 }),
         fval().prop_map(|val| MapAddConstF32 { val }),
-        (-100i32..100).prop_map(|t| BurstTaggerU32 { threshold: t as f32 / 100.0 }),
+        prop_oneof![8 => (-100i32..100).prop_map(|t| t as f32 / 100.0), 1 => Just(-0.0f32), 1 => Just(0.0f32)].prop_map(|threshold| BurstTaggerU32 { threshold }),
         Just(TeeU8),
         Just(TeeF32),
         prop_oneof![0u32..4, 0u32..6000, 0u32..14000].prop_map(|skip| SkipU8 { skip }),
@@ -481,7 +481,8 @@ impl BlockSpec {
             }
             XorU8 => vec![D::U8(gen_u8(&g[0], BDom::Bytes)), D::U8(gen_u8(&g[1], BDom::Bytes))],
             AddF32 | FloatToComplex => vec![D::F32(gen_f32(&g[0], FDom::Any)), D::F32(gen_f32(&g[1], FDom::Any))],
-            BurstTaggerU32 { .. } => vec![D::U32(gen_u32_small(&g[0])), D::F32(gen_f32(&g[1], FDom::Unit))],
+            // the trigger stream takes any float: NaN is not above any threshold, +0.0 is not above -0.0
+            BurstTaggerU32 { .. } => vec![D::U32(gen_u32_small(&g[0])), D::F32(gen_f32(&g[1], if g[1].seed % 2 == 0 { FDom::Any } else { FDom::Unit }))],
             AuDecode => {
                 // a well-formed .au stream: the encoder's 28-byte header, then PCM16 data
                 let mut v = rm::au_header(44100);
